@@ -271,7 +271,11 @@ func c20(tier string, args []string) int {
 		scen++
 	}
 	// the repository's authentic 0.1.4 log
-	msgs, err := utils.ReadLogMessages("/repo/client/test_data/0_1_4_log.csv", ';', true, 4)
+	repoRoot := os.Getenv("VERIF_REPO")
+	if repoRoot == "" {
+		repoRoot = "/repo"
+	}
+	msgs, err := utils.ReadLogMessages(repoRoot+"/client/test_data/0_1_4_log.csv", ';', true, 4)
 	if err != nil {
 		r.Infra("cannot read the 0.1.4 log: %v", err)
 	}
